@@ -720,6 +720,18 @@ func init() {
 			{"common", "1d9223372036854775807", diceP{Times: 1, Sides: -1, Mn: -1, Mx: -1}},
 			{"common", "3d9223372036854775807k1", diceP{Times: 3, Sides: -1, Kind: 2, Cnt: 1, Mn: -1, Mx: -1}},
 			{"common", "x = 9223372036854775807; 2d(x)", diceP{Times: 2, Sides: -1, Mn: -1, Mx: -1}},
+			// operands of min/max that are not integers, and terms whose total cannot be held in an integer: illegal as written
+			{"common", "2d6max(2.5)", diceP{Times: 2, Sides: -1, Mn: -1, Mx: -1}},
+			{"common", "2d6max('a')", diceP{Times: 2, Sides: -1, Mn: -1, Mx: -1}},
+			{"common", "2d6min('a')", diceP{Times: 2, Sides: -1, Mn: -1, Mx: -1}},
+			{"common", "2d6min(1.5)", diceP{Times: 2, Sides: -1, Mn: -1, Mx: -1}},
+			{"common", "3d6min(null)k2", diceP{Times: 3, Sides: -1, Kind: 2, Cnt: 2, Mn: -1, Mx: -1}},
+			{"common", "2d6max([1])", diceP{Times: 2, Sides: -1, Mn: -1, Mx: -1}},
+			{"common", "2d9223372036854775806", diceP{Times: 2, Sides: -1, Mn: -1, Mx: -1}},
+			{"common", "3d4611686018427387904", diceP{Times: 3, Sides: -1, Mn: -1, Mx: -1}},
+			{"common", "x = 9223372036854775806; 2d(x)", diceP{Times: 2, Sides: -1, Mn: -1, Mx: -1}},
+			{"common", "2d6min9223372036854775807", diceP{Times: 2, Sides: -1, Mn: -1, Mx: -1}},
+			{"common", "4d9223372036854775806k2", diceP{Times: 4, Sides: -1, Kind: 2, Cnt: 2, Mn: -1, Mx: -1}},
 			{"wod", "3a10m9223372036854775807", diceP{Pool: 3, Add: 10, Sides: -1, Thr: 8, GE: true, Mn: -1, Mx: -1}},
 			{"dc", "3c10m9223372036854775807", diceP{Pool: 3, Add: 10, Sides: -1, Mn: -1, Mx: -1}},
 		} {
